@@ -81,6 +81,22 @@ def main(tier, rep):
                             [("call", "set", False, plan, "all"), ("tick", 2), ("call", "get", None, None, "bytes"),
                              ("call", "add", False, None, "all")]
                     progs.append((cfg, steps))
+    # the server moves to another address under the same name: the connection in use keeps working, and after a failure the
+    # next call -- a fresh connection -- reaches the server where the name points NOW
+    for kind in ("client", "pooled"):
+        for fault in ({("recv", 1): "reset"}, {("sendall", 1): "reset"}, {("recv", 1): "timeout"}, {("reply", 0): "garbage"}):
+            for when in ("before-the-failure", "after-the-failure"):
+                for tls in (False, True):
+                    steps = [("call", "set", False, None, "all")]
+                    if when == "before-the-failure":
+                        steps += [("repoint", 0), ("call", "get", None, None, "all")]
+                    steps += [("call", "get", None, fault, "all")]
+                    if when == "after-the-failure":
+                        steps += [("repoint", 0)]
+                    steps += [("tick", 1), ("call", "get", None, None, "bytes"), ("call", "add", False, None, "all"),
+                              ("repoint", 0), ("call", "gets", None, None, "all"), ("call", "quit", None, None, "all"),
+                              ("call", "set", False, None, "all")]
+                    progs.append((L.Cfg(kind=kind, tls=tls), steps))
     traces = [L.run_program(cfg, steps) for cfg, steps in progs]
     # a HashClient that gives up on its server (retry_attempts exhausted) while the server is coming back: whatever
     # connection the last probes opened is closed by close()
